@@ -308,7 +308,8 @@ def main():
     print('MANIFEST.json written: %d checks, %d not_applicable' % (len(checks), len(na)))
 
 
-HOOK_COMMITS = ['8f78040 verif hook (cfg vaporetto_verif): Trainer::verif_examples exposes the decoded training examples (used by the c10 sweep only; Verus needs no hook)']
+HOOK_COMMITS = ['8f78040 verif hook (cfg vaporetto_verif): Trainer::verif_examples exposes the decoded training examples (used by the c10 sweep only; Verus needs no hook)',
+                '8d92f65 verif hook (cfg vaporetto_verif): Trainer::train records the learned quantised weights by feature name in VERIF_LEARNED (used by the c09 sweep only)']
 
 if __name__ == '__main__':
     main()
